@@ -13,6 +13,7 @@ import (
 	"encoding/json"
 	"fmt"
 	"math/rand"
+	"net/netip"
 	"os"
 	"path/filepath"
 	"regexp"
@@ -307,6 +308,127 @@ func routedDst(d *mcisco.Device) map[string]bool {
 	return res
 }
 
+// A route as (family, prefix); family separates VRFs and address families.
+type rtPrefix struct {
+	fam string
+	p   netip.Prefix
+}
+
+func maskToPrefix(addr, mask string) (netip.Prefix, bool) {
+	a, err1 := netip.ParseAddr(addr)
+	m, err2 := netip.ParseAddr(mask)
+	if err1 != nil || err2 != nil {
+		return netip.Prefix{}, false
+	}
+	bits := 0
+	for _, b := range m.AsSlice() {
+		for ; b&0x80 != 0; b <<= 1 {
+			bits++
+		}
+	}
+	return netip.PrefixFrom(a, bits).Masked(), true
+}
+
+// ciscoRoutePrefixes parses the route lines of a device model.
+func ciscoRoutePrefixes(d *mcisco.Device) []rtPrefix {
+	var res []rtPrefix
+	for _, r := range d.Routes() {
+		w := strings.Fields(r)
+		switch {
+		case w[0] == "route" && len(w) >= 4: // route IF net mask gw
+			if p, ok := maskToPrefix(w[2], w[3]); ok {
+				res = append(res, rtPrefix{"v4", p})
+			}
+		case w[0] == "ipv6" && len(w) >= 4: // ipv6 route IF prefix gw
+			if p, err := netip.ParsePrefix(w[3]); err == nil {
+				res = append(res, rtPrefix{"v6", p.Masked()})
+			}
+		case w[0] == "ip" && len(w) >= 6 && w[2] == "vrf": // ip route vrf V net mask gw
+			if p, ok := maskToPrefix(w[4], w[5]); ok {
+				res = append(res, rtPrefix{"vrf " + w[3], p})
+			}
+		case w[0] == "ip" && len(w) >= 4:
+			if p, ok := maskToPrefix(w[2], w[3]); ok {
+				res = append(res, rtPrefix{"ip", p})
+			}
+		}
+	}
+	return res
+}
+
+func linuxRoutePrefixes(s *mlinux.State) []rtPrefix {
+	var res []rtPrefix
+	for _, r := range s.Routes {
+		if p, err := netip.ParsePrefix(r.Dst); err == nil {
+			res = append(res, rtPrefix{"v4", p.Masked()})
+		}
+	}
+	return res
+}
+
+type rtProbe struct {
+	fam string
+	a   netip.Addr
+}
+
+// routeProbes returns, for every prefix, its first, second and last
+// address and the first address of its upper half.
+func routeProbes(sets ...[]rtPrefix) []rtProbe {
+	seen := map[rtProbe]bool{}
+	var res []rtProbe
+	add := func(f string, a netip.Addr) {
+		k := rtProbe{f, a}
+		if a.IsValid() && !seen[k] {
+			seen[k] = true
+			res = append(res, k)
+		}
+	}
+	for _, set := range sets {
+		for _, r := range set {
+			first := r.p.Addr()
+			add(r.fam, first)
+			add(r.fam, first.Next())
+			b := first.AsSlice()
+			bits := r.p.Bits()
+			last := append([]byte{}, b...)
+			for i := bits; i < len(b)*8; i++ {
+				last[i/8] |= 0x80 >> (i % 8)
+			}
+			if a, ok := netip.AddrFromSlice(last); ok {
+				add(r.fam, a)
+			}
+			if bits < len(b)*8 {
+				mid := append([]byte{}, b...)
+				mid[bits/8] |= 0x80 >> (bits % 8)
+				if a, ok := netip.AddrFromSlice(mid); ok {
+					add(r.fam, a)
+				}
+			}
+		}
+	}
+	return res
+}
+
+func routeCovers(set []rtPrefix, pr rtProbe) bool {
+	for _, r := range set {
+		if r.fam == pr.fam && r.p.Contains(pr.a) {
+			return true
+		}
+	}
+	return false
+}
+
+// routeLost reports a probe address that is routed by old and by new but
+// not by cur.
+func routeLost(old, new, cur []rtPrefix, probes []rtProbe) string {
+	for _, pr := range probes {
+		if routeCovers(old, pr) && routeCovers(new, pr) && !routeCovers(cur, pr) {
+			return fmt.Sprintf("%s address %s", pr.fam, pr.a)
+		}
+	}
+	return ""
+}
+
 var lineNrRE = regexp.MustCompile(`(?: line |^no |^)(\d+)(?: |$)`)
 
 // stepKind classifies a script entry: insert, delete, move-up, move-down.
@@ -396,6 +518,8 @@ func runC14(env *run.Env, c *c14Case) c14Result {
 	oldV := verdictVector(dev, keys, univ)
 	newV := verdictVector(tgt, keys, univ)
 	oldR, newR := routedDst(dev), routedDst(tgt)
+	oldP, newP := ciscoRoutePrefixes(dev), ciscoRoutePrefixes(tgt)
+	probes := routeProbes(oldP, newP)
 	res.Nontrivial = true
 	dev.EnterConfig()
 	for i, entry := range strings.Split(strings.TrimRight(r.Stdout, "\n"), "\n") {
@@ -449,6 +573,11 @@ func runC14(env *run.Env, c *c14Case) c14Result {
 				return res
 			}
 		}
+		if lost := routeLost(oldP, newP, ciscoRoutePrefixes(dev), probes); lost != "" {
+			res.Clause = "route-lost"
+			res.What = fmt.Sprintf("after entry %d '%s': %s is covered by no route, although routes cover it before and after the change", i+1, entry, lost)
+			return res
+		}
 	}
 	return res
 }
@@ -462,7 +591,7 @@ func runC14Linux(env *run.Env, seed int64) (c14Result, *c05Case) {
 	d := t.Clone()
 	// Only route edits.
 	for k := 1 + rng.Intn(4); k > 0; k-- {
-		switch rng.Intn(4) {
+		switch rng.Intn(6) {
 		case 0:
 			if len(d.Routes) > 0 {
 				d.Routes[rng.Intn(len(d.Routes))].Hop = fmt.Sprintf("10.7.0.%d", 1+rng.Intn(200))
@@ -474,6 +603,27 @@ func runC14Linux(env *run.Env, seed int64) (c14Result, *c05Case) {
 			}
 		case 2:
 			d.Routes = append(d.Routes, mlinux.Route{Dst: fmt.Sprintf("10.44.%d.0/24", rng.Intn(200)), Hop: "10.7.1.1"})
+		case 4, 5:
+			// Nested prefixes with one network address: the device covers
+			// a net by N/16 (or N/24), the target by the longer N/24 (N/28)
+			// for a part and by a new, shorter prefix for the rest.
+			has := func(l []mlinux.Route, dst string) bool {
+				for _, x := range l {
+					if x.Dst == dst {
+						return true
+					}
+				}
+				return false
+			}
+			k := 50 + rng.Intn(150)
+			devDst, tgtDst, cover := fmt.Sprintf("10.%d.0.0/16", k), fmt.Sprintf("10.%d.0.0/24", k), "10.0.0.0/8"
+			if rng.Intn(2) == 0 {
+				devDst, tgtDst, cover = fmt.Sprintf("10.%d.7.0/24", k), fmt.Sprintf("10.%d.7.0/28", k), fmt.Sprintf("10.%d.0.0/16", k)
+			}
+			if !has(d.Routes, devDst) && !has(t.Routes, tgtDst) && !has(t.Routes, cover) && !has(d.Routes, cover) {
+				d.Routes = append(d.Routes, mlinux.Route{Dst: devDst, Hop: "10.7.3.1"})
+				t.Routes = append(t.Routes, mlinux.Route{Dst: tgtDst, Hop: "10.7.3.2"}, mlinux.Route{Dst: cover, Hop: "10.7.3.1"})
+			}
 		case 3:
 			found := false
 			for i := range d.Routes {
@@ -505,6 +655,8 @@ func runC14Linux(env *run.Env, seed int64) (c14Result, *c05Case) {
 		return m
 	}
 	oldR, newR := dst(d), dst(t)
+	oldP, newP := linuxRoutePrefixes(d), linuxRoutePrefixes(t)
+	probes := routeProbes(oldP, newP)
 	m := d.Clone()
 	for i, l := range strings.Split(r.Stdout, "\n") {
 		if !strings.HasPrefix(l, "ip route ") {
@@ -522,6 +674,11 @@ func runC14Linux(env *run.Env, seed int64) (c14Result, *c05Case) {
 				res.What = fmt.Sprintf("after entry %d '%s': destination %s has no route", i+1, l, k)
 				return res, c
 			}
+		}
+		if lost := routeLost(oldP, newP, linuxRoutePrefixes(m), probes); lost != "" {
+			res.Clause = "route-lost"
+			res.What = fmt.Sprintf("after entry %d '%s': %s is covered by no route, although routes cover it before and after the change", i+1, l, lost)
+			return res, c
 		}
 	}
 	return res, c
